@@ -16,7 +16,12 @@ func main() {
 	seed := flag.Uint64("seed", 1, "PRNG seed")
 	out := flag.String("out", ".", "output directory")
 	replay := flag.String("replay", "", "replay file")
+	limits := flag.String("limits", "", "write the implementation's length limits as a Coq file and exit")
 	flag.Parse()
+	if *limits != "" {
+		writeLimits(*limits)
+		return
+	}
 	if flag.NArg() < 1 {
 		fmt.Fprintln(os.Stderr, "usage: harness [flags] <property>")
 		os.Exit(2)
